@@ -416,8 +416,7 @@ def rnd_val(r, depth=0):
         return ['i', r.randint(-3, 3)]
     if c < 0.45:
         return ['o', 0]
-    if c < 0.5:
-        return ['b', r.random() < 0.5]
+    # (no booleans next to numbers: NumPy's dtype promotion True -> 1.0 is outside the model)
     n = r.randint(0, 3)
     return [r.choice(['l', 't']), [rnd_val(r, depth + 1) for _ in range(n)]]
 
